@@ -10,13 +10,17 @@ package main
 import (
 	"bufio"
 	"bytes"
+	"context"
 	"encoding/hex"
 	"encoding/json"
 	"errors"
 	"fmt"
 	"io"
+	"reflect"
 	"regexp"
+	"strconv"
 	"strings"
+	"unicode/utf8"
 
 	"github.com/NethermindEth/juno/jsonrpc"
 	"verif/harness/lib"
@@ -35,8 +39,82 @@ func (c *chunkRec) Write(p []byte) (int, error) {
 
 // traceDecode: the `pretty` request for the driver, "" if HandleReader does not get a decode error
 func traceDecode(input []byte, batchDisabled bool, consumeBlanks bool) string {
+	l, _ := traceDecode2(input, batchDisabled, consumeBlanks)
+	return l
+}
+
+func hexTok(s string) string {
+	if s == "" {
+		return "-"
+	}
+	return hex.EncodeToString([]byte(s))
+}
+
+// traceDecode2: the `pretty` request and the `ptext` request (the same reads and error, plus what the
+// pretty printer takes from the error value: err.Error(), Field, Type, Value)
+func traceDecode2(input []byte, batchDisabled bool, consumeBlanks bool) (string, string) {
+	return traceDecodeReader(bytes.NewReader(input), batchDisabled, consumeBlanks)
+}
+
+type failingReader struct{ err error }
+
+func (f failingReader) Read([]byte) (int, error) { return 0, f.err }
+
+// readerFailures: the request stream breaks with an error that is neither a JSON error nor EOF (a dropped
+// connection, http.MaxBytesError, the websocket read limit): `errorOffset` knows no offset for it and the
+// answer's data is the error text alone (`!ok` branch of prettyParseError). Also io.ErrUnexpectedEOF and
+// io.EOF delivered by the reader itself.
+func (rn *runner) readerFailures(w *World) {
+	res := rn.res
+	docs := []string{`{"jsonrpc":"2.0","method":"noargs","id":1}`, "  \n [1,\n2", strings.Repeat(" ", 200) + `{"a":` + strings.Repeat("1", 600)}
+	errs := []error{errors.New("verif: connection reset by peer"), io.ErrUnexpectedEOF, io.ErrClosedPipe, fmt.Errorf("wrapped: %w", io.ErrUnexpectedEOF),
+		&json.SyntaxError{Offset: 3}, &json.UnmarshalTypeError{Value: "number", Offset: 2, Field: "verif.field", Type: reflect.TypeOf("")}}
+	var lines []string
+	var outs [][]byte
+	for _, d := range docs {
+		for _, cut := range []int{0, 1, 5, len(d) / 2, len(d) - 1} {
+			for _, e := range errs {
+				if cut > len(d) {
+					continue
+				}
+				mk := func() io.Reader { return io.MultiReader(strings.NewReader(d[:cut]), failingReader{e}) }
+				o := w.handleWith(context.Background(), mk())
+				if o.Hung || o.Panicked {
+					res.Violate(lib.Violation{Sig: "server-panics-or-hangs-on-failing-request-stream", What: fmt.Sprintf("HandleReader on %q followed by the read error %q: %s", d[:cut], e, o.PanicMsg), Replay: map[string]any{"prefix": d[:cut], "error": e.Error()}})
+					continue
+				}
+				_, tl := traceDecodeReader(mk(), w.Spec.BatchDisabled, rn.cfg.peek == "-")
+				if tl == "" {
+					res.Fatalf("reader failure family: no decode error for %q + %v", d[:cut], e)
+					continue
+				}
+				lines = append(lines, tl)
+				outs = append(outs, o.Out)
+			}
+		}
+	}
+	answers, err := rn.drv.AskAll(lines)
+	if err != nil || len(answers) != len(lines) {
+		res.Fatalf("reader failure family: %v", err)
+		return
+	}
+	for k := range lines {
+		got, ok := realData(outs[k])
+		res.Compared(1)
+		res.Hit("ptext:failing-reader")
+		want, ok2 := renderSegments(answers[k])
+		if !ok || !ok2 || asMarshalled(want) != got {
+			res.Mismatch(lib.Mismatch{Sig: "pretty_error: text of the parse-error answer differs (failing request stream)", Input: lines[k], Model: answers[k] + " = " + want, Impl: string(outs[k])})
+		}
+		if strings.Contains(lines[k], " other ") {
+			res.Hit("ptext:err-other")
+		}
+	}
+}
+
+func traceDecodeReader(rd io.Reader, batchDisabled bool, consumeBlanks bool) (string, string) {
 	rec := &chunkRec{}
-	br := bufio.NewReaderSize(io.TeeReader(bytes.NewReader(input), rec), 128) // server.go: bufferSize
+	br := bufio.NewReaderSize(io.TeeReader(rd, rec), 128) // server.go: bufferSize
 	batch := false
 	skipped := 0
 	if consumeBlanks { // isBatch since 4590891: blanks are consumed one by one, their number is unlimited
@@ -78,10 +156,10 @@ func traceDecode(input []byte, batchDisabled bool, consumeBlanks bool) string {
 		var b []json.RawMessage
 		err = dec.Decode(&b)
 	default:
-		return ""
+		return "", ""
 	}
 	if err == nil {
-		return ""
+		return "", ""
 	}
 	var se *json.SyntaxError
 	var te *json.UnmarshalTypeError
@@ -105,7 +183,75 @@ func traceDecode(input []byte, batchDisabled bool, consumeBlanks bool) string {
 		sb.WriteString(" " + hex.EncodeToString(rec.all))
 	}
 	sb.WriteString(" " + kind)
-	return sb.String()
+	field, ty, val := "", "", ""
+	if te != nil && se == nil {
+		field, val = te.Field, te.Value
+		if te.Type != nil {
+			ty = te.Type.String()
+		}
+	}
+	line := sb.String()
+	return line, "ptext" + strings.TrimPrefix(line, "pretty") + " " + hexTok(err.Error()) + " " + hexTok(field) + " " + hexTok(ty) + " " + hexTok(val)
+}
+
+// renderSegments: the text the model computed, with the two %q forms it leaves to Go's fmt filled in
+func renderSegments(answer string) (string, bool) {
+	var sb strings.Builder
+	for _, tok := range strings.Fields(answer) {
+		if len(tok) < 2 {
+			return "", false
+		}
+		switch tok[0] {
+		case 'b', 'Q':
+			var b []byte
+			if tok[1:] != "-" {
+				var err error
+				if b, err = hex.DecodeString(tok[1:]); err != nil {
+					return "", false
+				}
+			}
+			if tok[0] == 'b' {
+				sb.Write(b)
+			} else {
+				sb.WriteString(strconv.Quote(string(b)))
+			}
+		case 'q':
+			cp, err := strconv.ParseUint(tok[1:], 16, 32)
+			if err != nil {
+				return "", false
+			}
+			sb.WriteString(strconv.QuoteRune(rune(cp)))
+		default:
+			return "", false
+		}
+	}
+	return sb.String(), true
+}
+
+// asMarshalled: a Go string after json.Marshal + decoding (every invalid UTF-8 byte becomes U+FFFD)
+func asMarshalled(s string) string {
+	b, err := json.Marshal(s)
+	if err != nil {
+		return s
+	}
+	var out string
+	if json.Unmarshal(b, &out) != nil {
+		return s
+	}
+	return out
+}
+
+// realData: the `data` string of a -32700 answer
+func realData(out []byte) (string, bool) {
+	t := parseBody(out)
+	if t == nil || t.K != '{' {
+		return "", false
+	}
+	e := t.get("error")
+	if e.get("code") == nil || e.get("code").S != "-32700" || e.get("data") == nil || e.get("data").K != 's' {
+		return "", false
+	}
+	return e.get("data").S, true
 }
 
 var posRe = regexp.MustCompile(`\[line (\d+), position (\d+)\]$`)
@@ -128,7 +274,7 @@ func realPosition(out []byte) (string, bool) {
 
 func (rn *runner) prettyTie(w *World, inputs [][]byte, outs [][]byte) {
 	res := rn.res
-	var lines []string
+	var lines, tlines []string
 	var idx []int
 	for i, in := range inputs {
 		if len(in) > 16<<10 || outs[i] == nil {
@@ -137,8 +283,9 @@ func (rn *runner) prettyTie(w *World, inputs [][]byte, outs [][]byte) {
 		if _, ok := realPosition(outs[i]); !ok {
 			continue
 		}
-		if l := traceDecode(in, w.Spec.BatchDisabled, rn.cfg.peek == "-"); l != "" {
+		if l, tl := traceDecode2(in, w.Spec.BatchDisabled, rn.cfg.peek == "-"); l != "" {
 			lines = append(lines, l)
+			tlines = append(tlines, tl)
 			idx = append(idx, i)
 		}
 	}
@@ -161,6 +308,76 @@ func (rn *runner) prettyTie(w *World, inputs [][]byte, outs [][]byte) {
 		}
 		if answers[k] != got {
 			res.Mismatch(lib.Mismatch{Sig: "pretty_error: line/position differ", Input: describe(inputs[i]), Model: answers[k], Impl: got + " in " + string(outs[i])})
+		}
+	}
+	// the whole text of the answer's data (describeError, offendingLine, truncateAround, precedingLines, drawMarker)
+	tanswers, err := rn.drv.AskAll(tlines)
+	if err != nil || len(tanswers) != len(tlines) {
+		res.Fatalf("pretty text tie: %v (%d of %d answers)", err, len(tanswers), len(tlines))
+		return
+	}
+	for k, i := range idx {
+		got, _ := realData(outs[i])
+		res.Compared(1)
+		if tanswers[k] == "panic" {
+			// the checked model says a slice of pretty_error.go is out of range here: the server must have panicked
+			res.Mismatch(lib.Mismatch{Sig: "pretty_error: the model predicts a panic, the server answered", Input: describe(inputs[i]), Model: "panic", Impl: got})
+			continue
+		}
+		want, ok := renderSegments(tanswers[k])
+		if !ok {
+			res.Fatalf("pretty text tie: driver answered %q to %s", tanswers[k], describe(inputs[i]))
+			continue
+		}
+		prettyTextHits(res, got)
+		for _, tok := range strings.Fields(tanswers[k]) {
+			switch tok[0] {
+			case 'q':
+				res.Hit("ptext:%q-of-non-ascii-rune")
+			case 'Q':
+				res.Hit("ptext:%q-of-field-name")
+			}
+		}
+		if asMarshalled(want) != got {
+			res.Mismatch(lib.Mismatch{Sig: "pretty_error: text of the parse-error answer differs", Input: describe(inputs[i]), Model: asMarshalled(want), Impl: got})
+		}
+	}
+}
+
+// prettyTextHits: which branches of the text builder an answer went through
+func prettyTextHits(res *lib.Result, data string) {
+	rows := strings.Split(data, "\n")
+	// layout: [context rows] offending line, caret line, message
+	if len(rows) < 3 {
+		res.Hit("ptext:no-caret")
+		return
+	}
+	res.Hit(fmt.Sprintf("ptext:context-rows-%d", len(rows)-3))
+	line := rows[len(rows)-3]
+	n := utf8.RuneCountInString(line)
+	switch {
+	case strings.HasPrefix(line, "...") && strings.HasSuffix(line, "...") && n == 80:
+		res.Hit("ptext:line-cut-both-sides")
+	case strings.HasPrefix(line, "...") && n > 70:
+		res.Hit("ptext:line-cut-left")
+	case strings.HasSuffix(line, "...") && n > 70:
+		res.Hit("ptext:line-cut-right")
+	case n == 80:
+		res.Hit("ptext:line-exactly-80")
+	default:
+		res.Hit("ptext:line-short")
+	}
+	for _, r := range rows[:len(rows)-3] {
+		if utf8.RuneCountInString(r) == 77 && strings.HasSuffix(r, "...") { // 74 runes + the ellipsis
+			res.Hit("ptext:context-row-cut")
+			break
+		}
+	}
+	msg := rows[len(rows)-1]
+	for _, c := range []string{"unexpected trailing comma", "unexpected end of input", "expected a JSON object", "should be", ", expected a value",
+		"expected a string key", "expected ',' or '}'", "expected ':'", "expected ',' or ']'", "invalid character", "exceeded max depth"} {
+		if strings.Contains(msg, c) {
+			res.Hit("ptext:msg:" + c)
 		}
 	}
 }
